@@ -285,10 +285,8 @@ pub fn run(ctx: &Ctx) -> Report {
             Err(e) => rep.violations.push(viol("C04", "C04 bad-framing".into(), e, d())),
             Ok((pkts, msgs)) => {
                 rep.counters.add("packets_checked", pkts.len() as u64);
-                let dec = wire::decode_all(&obs.kinds, &msgs);
-                if dec.stop.is_some() || dec.used != msgs.len() {
-                    rep.violations.push(viol("C04", "C04 small-messages-undecodable".into(), format!("well-framed output whose messages do not decode: {:?}", dec.stop), d()));
-                }
+                // whether the messages form the right responses is C03's clause; C04 judges framing
+                rep.counters.add("messages_reassembled", msgs.len() as u64);
             }
         }
     });
